@@ -41,40 +41,143 @@ type c06Case struct {
 	NoSum  bool // -q or -F
 	Werror bool
 	FixF   bool // -F: runs on a copy, line numbers are checked against the original
+	WShape string
+}
+
+// ---------- reference semantics of the -W group (independent of getopt.go) ----------
+//
+// Documented behaviour: the arguments of -W / --warning are processed from left to right; an
+// argument is a comma separated list; each name switches its own flag on, "no-<name>" switches it
+// off; "all" / "none" switch every flag on / off EXCEPT "error" (-Wall does not imply -Werror, and
+// neither -Wall nor -Wnone takes a -Werror back). All flags start switched off.
+type c06WFlags struct{ Error, Extra, Perm, Quoting bool }
+
+func (f *c06WFlags) apply(list string) {
+	for _, el := range strings.Split(list, ",") {
+		on := !strings.HasPrefix(el, "no-")
+		switch strings.TrimPrefix(el, "no-") {
+		case "all":
+			f.Extra, f.Perm, f.Quoting = true, true, true
+		case "none":
+			f.Extra, f.Perm, f.Quoting = false, false, false
+		case "error":
+			f.Error = on
+		case "extra":
+			f.Extra = on
+		case "perm":
+			f.Perm = on
+		case "quoting":
+			f.Quoting = on
+		}
+	}
+}
+
+// c06WGroups draws 1-3 -W arguments in every order and spelling the option syntax allows and
+// returns them with the effective flags according to the reference above.
+func c06WGroups(r *Rng) (groups [][]string, eff c06WFlags, shape string) {
+	names := []string{"all", "all", "none", "error", "error", "no-error", "extra", "no-extra", "perm", "no-perm", "quoting", "no-quoting"}
+	var lists []string
+	switch r.Intn(10) {
+	case 0:
+		lists = []string{"all"}
+	case 1:
+		lists = []string{"error", "all"} // -Werror -Wall
+	case 2:
+		lists = []string{"all", "error"} // -Wall -Werror
+	case 3:
+		lists = []string{"error,all"}
+	case 4:
+		lists = []string{Pick(r, []string{"all,error", "none,error", "error,none", "error,extra", "all,no-error,error", "error,all,no-extra"})}
+	case 5:
+		lists = []string{"error", Pick(r, []string{"none", "none,extra", "all,no-perm"}), "perm"}
+	default:
+		for n := 1 + r.Intn(3); n > 0; n-- {
+			l := Pick(r, names)
+			for k := r.Intn(3); k > 0; k-- {
+				l += "," + Pick(r, names)
+			}
+			lists = append(lists, l)
+		}
+	}
+	sawError, errorBeforeAll := false, false
+	for _, l := range lists {
+		eff.apply(l)
+		for _, el := range strings.Split(l, ",") {
+			if el == "error" {
+				sawError = true
+			}
+			if (el == "all" || el == "none") && sawError {
+				errorBeforeAll = true
+			}
+		}
+		switch r.Intn(6) {
+		case 0, 1, 2:
+			groups = append(groups, []string{"-W" + l})
+		case 3:
+			groups = append(groups, []string{"-W", l})
+		case 4:
+			groups = append(groups, []string{Pick(r, []string{"--warning=", "--warn="}) + l})
+		case 5:
+			groups = append(groups, []string{"--warning", l})
+		}
+	}
+	switch {
+	case errorBeforeAll && eff.Error:
+		shape = "error-then-all/none, effective"
+	case eff.Error:
+		shape = "error effective"
+	case sawError:
+		shape = "error given, switched off again"
+	default:
+		shape = "no error flag"
+	}
+	return groups, eff, shape
 }
 
 func c06Flags(r *Rng) (args []string, c c06Case) {
-	args = []string{Pick(r, []string{"-Wall", "-Wall", "-Wextra", "-Wall,no-extra", "-Wperm"})}
+	wgroups, eff, shape := c06WGroups(r)
+	c.Werror, c.WShape = eff.Error, shape
+	var other [][]string // the remaining options, each with its argument
 	if r.Chance(50) {
-		args = append(args, "-Cglobal")
+		other = append(other, Pick(r, [][]string{{"-Cglobal"}, {"-Cglobal"}, {"--check=global"}, {"-Call"}, {"-C", "global"}, {"-Cnone,global"}}))
 	}
 	if r.Chance(35) {
-		args = append(args, Pick(r, []string{"-g", "--gcc-output-format"}))
+		other = append(other, []string{Pick(r, []string{"-g", "--gcc-output-format"})})
 		c.Gcc = true
 	}
 	if r.Chance(40) {
-		args = append(args, "-s")
+		other = append(other, []string{"-s"})
 	}
 	if r.Chance(40) {
-		args = append(args, "-e")
+		other = append(other, []string{"-e"})
 	}
 	if r.Chance(25) {
-		args = append(args, "-q")
+		other = append(other, []string{"-q"})
 		c.NoSum = true
-	}
-	if r.Chance(30) {
-		args = append(args, "-Werror")
-		c.Werror = true
 	}
 	switch r.Intn(6) {
 	case 0, 1:
-		args = append(args, "-f")
+		other = append(other, []string{"-f"})
 	case 2:
-		args = append(args, "-F")
+		other = append(other, []string{"-F"})
 		c.NoSum, c.FixF = true, true
 	}
 	if r.Chance(25) {
-		args = append(args, "--only", Pick(r, []string{"should", "must", "Unknown", "defined", ":", "%", "aligned", "newline"}))
+		other = append(other, []string{"--only", Pick(r, []string{"should", "must", "Unknown", "defined", ":", "%", "aligned", "newline"})})
+	}
+	// the -W arguments keep their relative order (it is significant), everything else goes anywhere between them
+	slots := make([][][]string, len(wgroups)+1)
+	for _, o := range other {
+		k := r.Intn(len(slots))
+		slots[k] = append(slots[k], o)
+	}
+	for i := range slots {
+		for _, o := range slots[i] {
+			args = append(args, o...)
+		}
+		if i < len(wgroups) {
+			args = append(args, wgroups[i]...)
+		}
 	}
 	return args, c
 }
@@ -377,6 +480,7 @@ func (ck *c06Checker) check(c c06Case, out RunResult, accAnswer string, afterRoo
 			if c.Werror {
 				res.Count("run.warnings-only-Werror", 1)
 			}
+			res.Count("run.warnings-only/-W shape: "+c.WShape, 1)
 		} else if n > 0 {
 			res.Count("run.notes-only", 1)
 		} else {
@@ -559,7 +663,11 @@ func runC06run(ctx *Ctx) *Result {
 	ck.runAndCheck(cases)
 	for _, c := range cases {
 		for _, a := range c.Args {
-			if strings.HasPrefix(a, "-") {
+			if strings.HasPrefix(a, "-W") || strings.HasPrefix(a, "--warn") {
+				res.Count("option.-W/--warning", 1)
+			} else if strings.HasPrefix(a, "-C") || strings.HasPrefix(a, "--check") {
+				res.Count("option.-C/--check", 1)
+			} else if strings.HasPrefix(a, "-") {
 				res.Count("option."+a, 1)
 			}
 		}
@@ -573,7 +681,7 @@ func runC06run(ctx *Ctx) *Result {
 	}
 	// coverage floors
 	floors := map[string]int{"diag.with-escaped-byte": 200, "diag.lineno.range-valid": 30, "diag.lineno-with-escaped-path": 30, "line.source": 100, "line.indented": 100,
-		"line.summary": 50, "line.looksfine": 1, "line.hint": 50, "diag.AUTOFIX": 20, "diag.NOTE": 20, "run.warnings-only-Werror": 1, "option.-q": 10, "option.-F": 10, "option.--only": 10}
+		"line.summary": 50, "line.looksfine": 1, "line.hint": 50, "diag.AUTOFIX": 20, "diag.NOTE": 20, "run.warnings-only-Werror": 10, "run.warnings-only/-W shape: error-then-all/none, effective": 4, "run.warnings-only/-W shape: error given, switched off again": 2, "option.-q": 10, "option.-F": 10, "option.--only": 10}
 	for _, k := range sortedKeys(floors) {
 		// a missed floor makes a PASS meaningless; when violations were found they are the result
 		if d(k) < floors[k] && len(res.Violations) == 0 {
